@@ -9,7 +9,14 @@ _TOKENS = itertools.count()
 
 class Recorder:
     def __init__(self, typer):
-        self.typer = typer              # value -> comparable type description
+        def safe(v):
+            # the reference typer is the repository's own get_type: if that cannot type a value the record says so (and no
+            # logged trace will match it) instead of crashing the workload
+            try:
+                return typer(v)
+            except RecursionError:
+                return "<untypable: RecursionError>"
+        self.typer = safe               # value -> comparable type description
         self.calls = {}                 # token -> record
         self.finished = []              # records in order of completion
         self.values = {}                # (qualname, position) -> list of observed values (for C01)
